@@ -265,8 +265,8 @@ def plan_C20(tier, seed):
                          miriflags="-Zmiri-preemption-rate=0.05"))
     return dict(level="exploration", required_engines=["debug", "release", "tsan"],
                 rule=("one evaluation = one comparison of an arena's per-call trace against its solo run: interleaved with other arenas on one thread, with one arena per thread (barriers between calls), "
-                      "or handed over between threads mid-history; plus cross-arena collection operations (append / extend / splice / push_str between containers of two arenas: each container stays in, and is paid for by, its own arena); plus detector rounds under ThreadSanitizer and Miri; distinct = distinct global interleaving signatures (hash of the observed order of (thread, call) tickets)"),
-                shards=shards, require={"c20.trace_entries_compared": 50000, "c20.thread_switches_observed": 2000, "c20.race_rounds": 1000, "c20.hand_over_runs": 20, "c20.cross_arena_growth_watched": 4000},
+                      "or handed over between threads mid-history; plus cross-arena collection operations (append / extend / splice / push_str between containers of two arenas: each container stays in, and is paid for by, its own arena) and a collections-level solo-vs-interleaved twin (format!, vec!, collect_in, decoders, growth: same lengths, capacities and arena statistics with or without another arena working in between); plus detector rounds under ThreadSanitizer and Miri; distinct = distinct global interleaving signatures (hash of the observed order of (thread, call) tickets)"),
+                shards=shards, require={"c20.trace_entries_compared": 50000, "c20.thread_switches_observed": 2000, "c20.race_rounds": 1000, "c20.hand_over_runs": 20, "c20.cross_arena_growth_watched": 4000, "c20.collection_twin_steps_compared": 5000},
                 assumptions=ASSUME_COMMON + ["twin runs use a deterministic-placement allocator mode (chunk base = align mod 8192) so that placement relative to the chunk base depends only on the arena's own history",
                                              "race detectors only see the schedules that occurred; TSan runs are repeated with 2-8 threads, Miri with several scheduler seeds"])
 
